@@ -48,26 +48,29 @@ impl util::SymbolManager<asm::Symbol>
                 let bankdef = defs.bankdefs.get(bankdef_ref);
                 if let Some(output_offset) = bankdef.output_offset
                 {
-                    if let Some(addr) = bigint.maybe_into::<usize>()
-                    {
-                        if let Some(addr_start) = bankdef.addr_start.maybe_into::<usize>()
-                        {
-                            // Labels located before the bank start or inside
-                            // the 16-byte file header have no PRG offset
-                            let maybe_prg_offset = addr
-                                .checked_sub(addr_start)
-                                .and_then(|o| o.checked_add(output_offset / 8))
-                                .and_then(|o| o.checked_sub(0x10));
+                    // Addresses are unbounded integers; only the label's
+                    // position inside the bank has to fit a machine word
+                    let maybe_bank_offset = bigint
+                        .checked_sub(
+                            &mut diagn::Report::new(),
+                            diagn::Span::new_dummy(),
+                            &bankdef.addr_start)
+                        .ok()
+                        .and_then(|o| o.maybe_into::<usize>());
 
-                            if let Some(prg_offset) = maybe_prg_offset
-                            {
-                                result.push_str("P:");
-                                result.push_str(&format!("{:x}", prg_offset));
-                                result.push_str(":");
-                                result.push_str(&name.replace(".", "_"));
-                                result.push_str("\n");
-                            }
-                        }
+                    // Labels located before the bank start or inside
+                    // the 16-byte file header have no PRG offset
+                    let maybe_prg_offset = maybe_bank_offset
+                        .and_then(|o| o.checked_add(output_offset / 8))
+                        .and_then(|o| o.checked_sub(0x10));
+
+                    if let Some(prg_offset) = maybe_prg_offset
+                    {
+                        result.push_str("P:");
+                        result.push_str(&format!("{:x}", prg_offset));
+                        result.push_str(":");
+                        result.push_str(&name.replace(".", "_"));
+                        result.push_str("\n");
                     }
                 }
                 else
